@@ -29,6 +29,7 @@ REQUIRED_THEOREMS = [
     "C02_pi_unit", "C02_rho_eq_partial_trace", "C02_phase_aux_bias_irrelevant", "C02_hermitian", "C02_posSemidef",
     "C02_diagonal", "C02_trace", "C02_normalization_pos", "C02_call_forms", "C02_rhoDiag_eq_rho_diag", "C02_diagonal_sampled",
     "C02_NZ_of_x_ne_zero", "C02_NZ_of_amp_off_hyperplanes", "C02_posSemidef_of_x_ne_zero", "C02_posSemidef_of_amp_off_hyperplanes",
+    "C02_expand_flag", "C02_expand_flag_partial_trace",   # round 4: `expand` as the object the caller passed
 ]
 THEOREMS = {
     "rho": "C02_rho_eq_partial_trace (+ C02_hermitian, C02_posSemidef, C02_call_forms)",
@@ -49,7 +50,10 @@ RULE = ("case = (n, h, a, scale, amplitude-net params, phase-net params, alterna
         "amplitude net non-zero and some phase-net U non-zero; distinct by hash of the case; every generated case also carries 7 scripted "
         "sampling calls (k = 0..3 from every basis state, vector start, no start, continued chain; overwrite / api / draw mode varied) and, "
         "for two of three cases, 1-2 complete re-parametrisations of the same state object (copy_|assign|zero_add|nograd_copy|reinit+copy_|"
-        "reinit+assign) after each of which everything is evaluated again with the same argument tensors")
+        "reinit+assign) after each of which everything is evaluated again with the same argument tensors; every explicit `expand` argument "
+        "of gamma / pi / rho (batch and 1-D forms) and every `overwrite` argument of the sampling calls is handed over as one of {bool "
+        "singleton, int 1/0, numpy.bool_, result of a numpy comparison, 0-dim numpy bool array, 0-dim torch.bool tensor}, by keyword or "
+        "positionally, drawn from a per-case seeded stream (`fseed`); the state is constructed with gpu=<falsy object of one of these forms>")
 EXP_LIMIT = 600.0
 
 
@@ -137,6 +141,40 @@ def _shape(x, shape, what):
     return x
 
 
+class _Calls:
+    """the flagged call forms of one case.  Every `expand` argument is drawn from the case's flag stream (`qc.Flags(case["fseed"])`): the truth
+    value meant is handed over as a bool singleton / int 1|0 / numpy.bool_ / result of a numpy comparison / 0-dim numpy bool array / 0-dim
+    torch.bool tensor, by keyword or positionally (gamma(v, vp, eta, expand), pi(v, vp, expand), rho(v, vp, expand)).  `rec` keeps, per call
+    on BATCH arguments, (function, descriptor, vp is None, layout of the result) for the comparison with Density.gammaForm / piForm / rhoForm,
+    `vals` the flagged rho calls on square batches for the comparison with Density.rhoFlagged (theorem C02_expand_flag)."""
+
+    def __init__(self, fl):
+        self.fl, self.rec, self.vals = fl, [], []
+
+    def gamma(self, r, v, vp, eta, b):
+        obj, d = self.fl(b)
+        out = r.gamma(v, vp, eta, obj) if d["pos"] else r.gamma(v, vp, eta=eta, expand=obj)
+        if v.dim() == 2 and vp.dim() == 2:
+            self.rec.append(["gamma", d, False, "matrix" if out.dim() == 2 else "vector"])
+        return out
+
+    def pi(self, st, v, vp, b):
+        obj, d = self.fl(b)
+        out = st.pi(v, vp, obj) if d["pos"] else st.pi(v, vp, expand=obj)
+        if v.dim() == 2 and vp.dim() == 2:
+            self.rec.append(["pi", d, False, "matrix" if out.dim() == 3 else "vector"])
+        return out
+
+    def rho(self, st, v, vp, b, name=None):
+        obj, d = self.fl(b)
+        out = st.rho(v, vp, obj) if d["pos"] else (st.rho(v, expand=obj) if vp is None else st.rho(v, vp, expand=obj))
+        if v.dim() == 2 and (vp is None or vp.dim() == 2):
+            self.rec.append(["rho", d, vp is None, "matrix" if out.dim() == 3 else "vector"])
+            if name is not None and (vp is None or vp.shape[0] == v.shape[0]):
+                self.vals.append((name, d, v, vp, out.detach().numpy().copy()))
+        return out
+
+
 class _In:
     """the argument tensors of one case, built once and handed to the implementation again in every phase of a history"""
 
@@ -167,9 +205,10 @@ def _one_case(ctx, case):
     am, ph = case["am"], case["ph"]
     tag = case.get("tag", "gen")
     ctx.current_case = case
-    st = qc.make_density(n, h, a, am, ph)
+    st = qc.make_density(n, h, a, am, ph, gpu=qc.flag_value(qc.flag_desc(case.get("gpuf"), False)))
     I = _In(st, n, a, case["sub"])
     writes = case.get("writes") or []
+    K = _Calls(qc.Flags(case.get("fseed")))   # cases stored before round 4 carry no "fseed": Python singletons by keyword, as before
 
     nontriv = (scale > 0 and all(x != 0 for x in am["b"]) and all(x != 0 for x in am["c"]) and all(x != 0 for x in am["d"])
                and any(x != 0 for r in ph["U"] for x in r))
@@ -178,6 +217,7 @@ def _one_case(ctx, case):
                      "writes": [w["mode"] for w in writes], "sampling_calls": len(case.get("sampling") or [])})
     for k, v in (("n", n), ("h", h), ("a", a), ("scale", scale)):
         ctx.count(f"{k}={v}")
+    ctx.count("gpu=False given as " + qc.flag_desc(case.get("gpuf"), False)["form"])
     ctx.count("ph_d=0" if all(x == 0 for x in ph["d"]) else "ph_d!=0")
     if writes:
         ctx.count("history_cases")
@@ -189,18 +229,21 @@ def _one_case(ctx, case):
             ctx.count(f"write={wmode}")
             sub = c05.SubCtx(ctx, outer=case, prefix=f"after write {i} ({wmode}): ", sigsuffix="@rewritten")
         try:
-            _eval_state(sub, st, case, am_i, ph_i, I)
+            _eval_state(sub, st, case, am_i, ph_i, I, K)
         except ShapeMismatch as e:
-            sub.oracle("call form returns the documented shape", False, case, detail=str(e), sig="shape", theorem="C02_call_forms")
+            sub.oracle("call form returns the documented shape", False, case, detail=f"{e}; `expand` was given as {K.fl.used[-1] if K.fl.used else 'default'}",
+                       sig="shape", theorem="C02_call_forms, C02_expand_flag")
         if case.get("sampling"):
             sampling_probe(sub, st, case, am_i, I)
         bad_in = I.modified()
         sub.oracle("argument tensors unmodified by the evaluation", not bad_in, case, detail={"modified": bad_in}, sig="args-untouched")
+    for d in K.fl.used:
+        ctx.count(f"expand={d['value']} given as {d['form']}:{'positional' if d['pos'] else 'keyword'}")
     alt = case.get("alt")
     if alt is not None:
         sets = [phases[-1][1:], (alt["am"], alt["ph"])]
         if all(in_exp_domain(p_am, p_ph, n, h, a) for (p_am, p_ph) in sets):
-            c05.alternation(ctx, st, case, c02_thunks(st, case, I, sets), sets, alt["off"], "alternation")
+            c05.alternation(ctx, st, case, c02_thunks(st, case, I, sets, K), sets, alt["off"], "alternation")
             bad_in = I.modified()
             ctx.oracle("alternation: argument tensors unmodified", not bad_in, case, detail={"modified": bad_in}, sig="args-untouched")
         else:
@@ -225,7 +268,7 @@ def np_pi(am, ph, V, Vp):
     return z.real.sum(-1), z.imag.sum(-1)
 
 
-def c02_thunks(st, case, I, sets):
+def c02_thunks(st, case, I, sets, K=None):
     """the observables of C02 in their call forms as (name, call, numpy reference per parameter set, theorem) for c05.alternation;
     rho / probability / normalization references: the brute-force partial trace (oracle_rho), NOT the library's formula"""
     n, h, a = case["n"], case["h"], case["a"]
@@ -241,6 +284,7 @@ def c02_thunks(st, case, I, sets):
         refs.append({"R": R, "diag": np.diag(R).real.copy(), "pi_re": pr, "pi_im": pim,
                      "g_am_p": np_gamma(am, V, V, 1.0), "g_ph_m": np_gamma(ph, V, V, -1.0),
                      "E_am": c05.np_energy("dens", am, rows), "E_ph": c05.np_energy("dens", ph, rows), "Eaux": -Ll})
+    K = K if K is not None else _Calls(qc.Flags(None))
     cx = lambda t: _np(t)  # noqa: E731
     ri = lambda k, M: np.stack([refs[k][M].real, refs[k][M].imag])  # noqa: E731
     T = THEOREMS
@@ -249,17 +293,18 @@ def c02_thunks(st, case, I, sets):
         ("probability(space)", lambda: cx(st.probability(I.space_t, 1.0)), lambda k: refs[k]["diag"], T["probability"]),
         ("normalization(generated space)", lambda: np.array([float(st.normalization(I.gen_space))]), lambda k: np.array([refs[k]["diag"].sum()]), T["normalization"]),
         ("rho(space) vp=None", lambda: cx(st.rho(I.space_t)), lambda k: ri(k, "R"), T["rho"]),
-        ("rho(v, vp, expand=False)", lambda: cx(st.rho(I.vrep, I.vtile, expand=False)), lambda k: ri(k, "R").reshape(2, N * N), T["rho"]),
+        ("rho(v, vp, expand=False)", lambda: cx(K.rho(st, I.vrep, I.vtile, False)), lambda k: ri(k, "R").reshape(2, N * N), T["rho"]),
+        ("rho(space, space, expand=True)", lambda: cx(K.rho(st, I.space_t, I.space_t, True)), lambda k: ri(k, "R"), T["rho"]),
         ("rho 1-D", lambda: cx(st.rho(I.row[i0], I.row[j0])).ravel(), lambda k: np.array([refs[k]["R"][i0, j0].real, refs[k]["R"][i0, j0].imag]), T["rho"],
          lambda k: float(np.sqrt(refs[k]["diag"][i0] * refs[k]["diag"][j0]))),
-        ("rho(space, expand=False)", lambda: cx(st.rho(I.space_t, expand=False)), lambda k: np.stack([refs[k]["diag"], np.zeros(N)]), T["rho_diag"]),
+        ("rho(space, expand=False)", lambda: cx(K.rho(st, I.space_t, None, False)), lambda k: np.stack([refs[k]["diag"], np.zeros(N)]), T["rho_diag"]),
         ("rho(generated space)", lambda: cx(st.rho(I.gen_space_d, I.gen_space_d)), lambda k: ri(k, "R"), T["rho"]),
         ("pi(space, space)", lambda: cx(st.pi(I.space_t, I.space_t)), lambda k: np.stack([refs[k]["pi_re"], refs[k]["pi_im"]]), "C02_pi_unit", 1.0),
-        ("pi(v, vp, expand=False)", lambda: cx(st.pi(I.vrep, I.vtile, expand=False)),
+        ("pi(v, vp, expand=False)", lambda: cx(K.pi(st, I.vrep, I.vtile, False)),
          lambda k: np.stack([refs[k]["pi_re"].ravel(), refs[k]["pi_im"].ravel()]), "C02_pi_unit", 1.0),
         ("pi 1-D", lambda: cx(st.pi(I.row[i0], I.row[j0])).ravel(), lambda k: np.array([refs[k]["pi_re"][i0, j0], refs[k]["pi_im"][i0, j0]]), "C02_pi_unit", 1.0),
-        ("gamma[am,+](space, space)", lambda: cx(st.rbm_am.gamma(I.space_t, I.space_t, eta=1, expand=True)), lambda k: refs[k]["g_am_p"], T["rho"], 1.0),
-        ("gamma[ph,-](v, vp, expand=False)", lambda: cx(st.rbm_ph.gamma(I.vrep, I.vtile, eta=-1, expand=False)), lambda k: refs[k]["g_ph_m"].ravel(), T["rho"], 1.0),
+        ("gamma[am,+](space, space)", lambda: cx(K.gamma(st.rbm_am, I.space_t, I.space_t, 1, True)), lambda k: refs[k]["g_am_p"], T["rho"], 1.0),
+        ("gamma[ph,-](v, vp, expand=False)", lambda: cx(K.gamma(st.rbm_ph, I.vrep, I.vtile, -1, False)), lambda k: refs[k]["g_ph_m"].ravel(), T["rho"], 1.0),
         ("gamma[ph,-] 1-D", lambda: np.array([float(st.rbm_ph.gamma(I.row[i0], I.row[j0], eta=-1))]), lambda k: np.array([refs[k]["g_ph_m"][i0, j0]]), T["rho"], 1.0),
         ("effective_energy[am](space)", lambda: cx(st.rbm_am.effective_energy(I.space_t)), lambda k: refs[k]["E_am"], T["probability"], 1.0),
         ("effective_energy[ph](space)", lambda: cx(st.rbm_ph.effective_energy(I.space_t)), lambda k: refs[k]["E_ph"], None, 1.0),
@@ -312,7 +357,7 @@ def sampling_probe(ctx, st, case, am, I):
                                    countprefix="sampling:"), st, sc, am, inp=inp, ikey=f"start.{j}")
 
 
-def _eval_state(ctx, st, case, am, ph, I):
+def _eval_state(ctx, st, case, am, ph, I, K=None):
     """everything the property names, evaluated on the state object `st` which is supposed to carry the parameters (am, ph)"""
     n, h, a = case["n"], case["h"], case["a"]
     d_alt, vec_pairs, sub = case["d_alt"], case["vec_pairs"], case["sub"]
@@ -321,6 +366,8 @@ def _eval_state(ctx, st, case, am, ph, I):
     auxrows = qc.all_states(a)
     C = len(auxrows)
     space_t, aux_t, gen_space, vrep, vtile, sub_t = I.space_t, I.aux_t, I.gen_space, I.vrep, I.vtile, I.sub_t
+    K = K if K is not None else _Calls(qc.Flags(None))
+    K.rec, K.vals = [], []
 
     # ------------------------------------------------ implementation: log-domain values
     nets = {"am": st.rbm_am, "ph": st.rbm_ph}
@@ -331,14 +378,17 @@ def _eval_state(ctx, st, case, am, ph, I):
     gam = {}
     for k, r in nets.items():
         for nm, eta in (("p", 1), ("m", -1)):
-            gam[f"M_{k}_{nm}"] = _shape(_np(r.gamma(space_t, space_t, eta=eta, expand=True)), (N, N), "gamma(space, space)")
-            gam[f"S_{k}_{nm}"] = _np(r.gamma(sub_t, space_t, eta=eta, expand=True))
-            gam[f"P_{k}_{nm}"] = _np(r.gamma(vrep, vtile, eta=eta, expand=False))
-            gam[f"V_{k}_{nm}"] = np.array([float(r.gamma(I.row[i], I.row[j], eta=eta)) for (i, j) in vec_pairs])
-    piM = _shape(_np(st.pi(space_t, space_t, expand=True)), (2, N, N), "pi(space, space)")
-    piS = _np(st.pi(sub_t, space_t, expand=True))
-    piP = _np(st.pi(vrep, vtile, expand=False))
-    piV = np.array([_np(st.pi(I.row[i], I.row[j])).ravel() for (i, j) in vec_pairs]).reshape(len(vec_pairs), 2)
+            gam[f"M_{k}_{nm}"] = _shape(_np(K.gamma(r, space_t, space_t, eta, True)), (N, N), "gamma(space, space, expand=<true>)")
+            gam[f"S_{k}_{nm}"] = _shape(_np(K.gamma(r, sub_t, space_t, eta, True)), (len(sub), N), "gamma(sub, space, expand=<true>)")
+            gam[f"P_{k}_{nm}"] = _shape(_np(K.gamma(r, vrep, vtile, eta, False)), (N * N,), "gamma(v, vp, expand=<false>)")
+            # 1-D arguments: `expand` is irrelevant (default, or any object of either truth value)
+            gam[f"V_{k}_{nm}"] = np.array([float(r.gamma(I.row[i], I.row[j], eta=eta) if q % 3 == 0 else K.gamma(r, I.row[i], I.row[j], eta, q % 3 == 1))
+                                           for q, (i, j) in enumerate(vec_pairs)])
+    piM = _shape(_np(K.pi(st, space_t, space_t, True)), (2, N, N), "pi(space, space, expand=<true>)")
+    piS = _shape(_np(K.pi(st, sub_t, space_t, True)), (2, len(sub), N), "pi(sub, space, expand=<true>)")
+    piP = _shape(_np(K.pi(st, vrep, vtile, False)), (2, N * N), "pi(v, vp, expand=<false>)")
+    piV = np.array([_np(st.pi(I.row[i], I.row[j]) if q % 3 == 0 else K.pi(st, I.row[i], I.row[j], q % 3 == 1)).ravel()
+                    for q, (i, j) in enumerate(vec_pairs)]).reshape(len(vec_pairs), 2)
 
     expo = gam["M_am_p"] + piM[0]
     finite = bool(np.all(np.isfinite(expo)) and np.all(np.isfinite(piM)))
@@ -393,6 +443,20 @@ def _eval_state(ctx, st, case, am, ph, I):
             ctx.point(f"pi_{part} expand=False", "aux", piP[idx], mP(f"pi_{part}"), case, scale=spi, sig=f"pi-{part}/paired")
             ctx.point(f"pi_{part} 1-D", "aux", piV[:, idx] if vec_pairs else [], mV(f"pi_{part}"), case, scale=spi, sig=f"pi-{part}/vec")
 
+    if ctx.driver is not None and K.rec:
+        # layout each function chooses for the object it was handed (batch arguments), against gammaForm / piForm / rhoForm
+        want, seen = [], {}
+        for (fn, d, vp_none, lay) in K.rec:
+            key = (d["form"], d["value"], vp_none)
+            if key not in seen:
+                seen[key] = ctx.driver.call("c02.flagged", n=n, h=h, a=a, am=qc.pbits(am), ph=qc.pbits(ph), rows=[], rows2=None if vp_none else [],
+                                            expand={"form": d["form"], "value": d["value"]}, values=False)
+            f = seen[key][fn + "_form"]
+            want.append([fn, d["form"], d["value"], vp_none, {"matrix": "matrix", "paired": "vector", "diag": "vector"}.get(f, f)])
+        ctx.point("layout chosen for the object passed as `expand` (gamma / pi / rho on batches)", "property",
+                  [[fn, d["form"], d["value"], vp_none, lay] for (fn, d, vp_none, lay) in K.rec], want, case, exact=True,
+                  theorem="C02_expand_flag", sig="flag/layout")
+
     # ------------------------------------------------ oracle in the normalised (log) domain: works at every magnitude
     Ll, Lm = oracle_state(am, ph, n, h, a, rows)
     if finite:
@@ -422,12 +486,16 @@ def _eval_state(ctx, st, case, am, ph, I):
     # ------------------------------------------------ implementation: exp-domain values (the property's observables)
     R = _shape(_np(st.rho(space_t, space_t)), (2, N, N), "rho(space, space)")
     R0 = _shape(_np(st.rho(space_t)), (2, N, N), "rho(space)")
-    RS = _shape(_np(st.rho(sub_t, space_t, expand=True)), (2, len(sub), N), "rho(sub, space, expand=True)")
-    RP = _shape(_np(st.rho(vrep, vtile, expand=False)), (2, N * N), "rho(v, vp, expand=False)")
-    RV = np.array([_np(st.rho(I.row[i], I.row[j])).ravel() for (i, j) in vec_pairs]).reshape(len(vec_pairs), 2)
-    RV2 = np.array([_np(st.rho(I.row[i], I.row[j], expand=False)).ravel() for (i, j) in vec_pairs]).reshape(len(vec_pairs), 2)
-    RD = _shape(_np(st.rho(space_t, expand=False)), (2, N), "rho(space, expand=False)")
-    RD1 = _np(st.rho(I.row[N - 1], expand=False)).ravel()   # 1-D
+    # the same forms with `expand` given explicitly, as whatever object the case's flag stream yields (default-argument calls above)
+    RT = _shape(_np(K.rho(st, space_t, space_t, True, "rho(space, space, expand=<true>)")), (2, N, N), "rho(space, space, expand=<true>)")
+    R0T = _shape(_np(K.rho(st, space_t, None, True, "rho(space, expand=<true>)")), (2, N, N), "rho(space, expand=<true>)")
+    RS = _shape(_np(K.rho(st, sub_t, space_t, True)), (2, len(sub), N), "rho(sub, space, expand=<true>)")
+    RP = _shape(_np(K.rho(st, vrep, vtile, False, "rho(v, vp, expand=<false>)")), (2, N * N), "rho(v, vp, expand=<false>)")
+    RV = np.array([_np(st.rho(I.row[i], I.row[j]) if q % 2 == 0 else K.rho(st, I.row[i], I.row[j], True)).ravel()
+                   for q, (i, j) in enumerate(vec_pairs)]).reshape(len(vec_pairs), 2)
+    RV2 = np.array([_np(K.rho(st, I.row[i], I.row[j], False)).ravel() for (i, j) in vec_pairs]).reshape(len(vec_pairs), 2)
+    RD = _shape(_np(K.rho(st, space_t, None, False, "rho(space, expand=<false>)")), (2, N), "rho(space, expand=<false>)")
+    RD1 = _np(K.rho(st, I.row[N - 1], None, False)).ravel()   # 1-D
     p1 = _np(st.probability(space_t, 1.0))
     Z = float(st.normalization(gen_space))
     pZ = _np(st.probability(space_t, Z))
@@ -437,6 +505,8 @@ def _eval_state(ctx, st, case, am, ph, I):
         for nm, (ire, iim, mre, mim) in {
             "expand=True": (R[0], R[1], mM("rho_re"), mM("rho_im")),
             "vp=None": (R0[0], R0[1], mM("rho_re"), mM("rho_im")),
+            "expand=<true object>": (RT[0], RT[1], mM("rho_re"), mM("rho_im")),
+            "vp=None, expand=<true object>": (R0T[0], R0T[1], mM("rho_re"), mM("rho_im")),
             "expand=True rect": (RS[0], RS[1], mS("rho_re"), mS("rho_im")),
             "expand=False": (RP[0], RP[1], mP("rho_re"), mP("rho_im")),
             "1-D": (RV[:, 0], RV[:, 1], mV("rho_re"), mV("rho_im")),
@@ -459,6 +529,20 @@ def _eval_state(ctx, st, case, am, ph, I):
         ctx.point("probability", "property", p1 / p1, mrow("prob1") / p1, case, scale=1.0, theorem=THEOREMS["probability"], sig="probability")
         ctx.point("normalization", "property", [Z], unbits([model["Z"]]), case, scale=sc, theorem=THEOREMS["normalization"], sig="normalization")
         ctx.point("probabilityZ", "property", pZ, mrow("probZ"), case, scale=1.0, theorem=THEOREMS["probability"], sig="probabilityZ")
+        # `expand` as the OBJECT passed: the model evaluates Density.rhoFlagged on the flag descriptor (layout AND elements)
+        for (name, d, v_t, vp_t, got) in K.vals:
+            mf = ctx.driver.call("c02.flagged", n=n, h=h, a=a, am=qc.pbits(am), ph=qc.pbits(ph), rows=bits(_np(v_t)),
+                                 rows2=None if vp_t is None else bits(_np(vp_t)), expand={"form": d["form"], "value": d["value"]}, values=True)
+            sub_case = case
+            lay = "matrix" if got.ndim == 3 else "vector"
+            ctx.point(f"{name} given as {d['form']}: layout of the result", "property", lay, mf["layout"], sub_case, exact=True,
+                      theorem="C02_expand_flag", sig="flag/rho-layout")
+            if mf["layout"] == lay:
+                a_re, a_im, b_re, b_im = _norm_pair(got[0], got[1], np.reshape(unbits(mf["re"]), got[0].shape), np.reshape(unbits(mf["im"]), got[1].shape))
+                ctx.point(f"{name} given as {d['form']}: rho_re", "property", a_re, b_re, sub_case, scale=1.0,
+                          theorem="C02_expand_flag, C02_expand_flag_partial_trace", sig="flag/rho")
+                ctx.point(f"{name} given as {d['form']}: rho_im", "property", a_im, b_im, sub_case, scale=1.0,
+                          theorem="C02_expand_flag, C02_expand_flag_partial_trace", sig="flag/rho")
 
     # ------------------------------------------------ property oracles on the implementation
     Rc = R[0] + 1j * R[1]
@@ -492,6 +576,9 @@ def _eval_state(ctx, st, case, am, ph, I):
     Rp = (RP[0] + 1j * RP[1]).reshape(N, N)
     ctx.oracle("expand=False pairs == expand=True entries", bool(np.all(np.abs(Rp - Rc) <= tolM)), case, sig="rho/forms-paired", theorem="C02_call_forms")
     ctx.oracle("rho(v) with vp=None == rho(v, v)", bool(np.all(np.abs((R0[0] + 1j * R0[1]) - Rc) <= tolM)), case, sig="rho/forms-none", theorem="C02_call_forms")
+    ctx.oracle("expand given as a true object (bool / int / numpy bool / 0-dim array / 0-dim tensor; keyword or positional) == the full matrix",
+               bool(np.all(np.abs((RT[0] + 1j * RT[1]) - Rc) <= tolM) and np.all(np.abs((R0T[0] + 1j * R0T[1]) - Rc) <= tolM)), case,
+               detail={"given_as": [d for d in K.fl.used[-12:]]}, sig="rho/forms-flag-object", theorem="C02_expand_flag")
     Rs = RS[0] + 1j * RS[1]
     ctx.oracle("rectangular expand=True == rows of the full matrix", bool(np.all(np.abs(Rs - Rc[sub, :]) <= tolM[sub, :])), case,
                sig="rho/forms-rect", theorem="C02_call_forms")
@@ -668,7 +755,8 @@ def make_case(rng, n, h, a, scale, d_zero, n_vec, tag="gen"):
     sub = [rng.randrange(N) for _ in range(rng.randrange(1, N + 2))]
     if len(sub) == N:
         sub = sub[:-1] if N > 1 else sub + [0]
-    return {"n": n, "h": h, "a": a, "scale": scale, "am": am, "ph": ph, "d_alt": d_alt, "vec_pairs": pairs, "sub": sub, "tag": tag}
+    return {"n": n, "h": h, "a": a, "scale": scale, "am": am, "ph": ph, "d_alt": d_alt, "vec_pairs": pairs, "sub": sub, "tag": tag,
+            "fseed": rng.randrange(2 ** 31), "gpuf": qc.flag_form(rng, plain=0.4)}
 
 
 def sampling_specs(rng, n):
@@ -682,6 +770,7 @@ def sampling_specs(rng, n):
              "dseed": rng.randrange(2 ** 31), "k2": None, "overwrite2": False}
         c.update(kw)
         c["B"] = kw.get("B", len(c["start"]) if c["start"] is not None else 1)
+        c["owf"], c["owf2"] = qc.flag_form(rng), qc.flag_form(rng)   # the objects handed as `overwrite` (c05.run_call)
         return c
 
     out = [spec(k=k, start=batch, overwrite=bool((k + rng.randrange(2)) % 2), api=rng.choice(["sample", "gibbs_steps"])) for k in range(4)]
